@@ -208,7 +208,7 @@ def main():
             }
         ],
         "checks": checks,
-        "notes": "Runtime monitoring and sanitizers only. Exit 0 held / 1 VIOLATION / 3 INCONCLUSIVE (never a VIOLATION line). Known findings: /verif/known_findings.json.",
+        "notes": "Runtime monitoring and sanitizers only. Exit 0 held / 1 VIOLATION / 3 INCONCLUSIVE (never a VIOLATION line). Known findings: /verif/known_findings/<ID>.json (status known | fixed; fixed entries suppress nothing). Seeded changes used to validate the checks: /verif/seeded (DESIGN.md section 8.5).",
         "not_applicable": [{"property_id": pid, "reason": NOT_YET} for pid in ALL if pid not in CLAIMS],
     }
     with open(os.path.join(VERIF, "MANIFEST.json"), "w") as f:
